@@ -1,9 +1,11 @@
 (* C13 - semantic tokens are ordered, disjoint and exactly the schema-known elements.
    Model: Model/BodyQueries.v (tokensForBody at body level: attribute names, block types, labels with
    their modifiers, descent with the merged schema, final sort), compared with
-   SemanticTokensInFile on every run; tokens inside values are decided on the implementation. *)
+   SemanticTokensInFile on every run; Model/ValueTokens.v: the tokens inside attribute values (every expression and
+   constraint kind), with the body level the complete result of SemanticTokensInFile, compared on every run. *)
 From Coq Require Import String List ZArith Bool Sorted Permutation.
-From HV Require Import Base.SortSpec Model.Schema Model.Ast Model.BodyQueries Proofs.BodyQueriesProofs Proofs.TokenPlaces.
+From HV Require Import Base.Sexp Base.SortSpec Base.Pos Model.Schema Model.Ast Model.BodyQueries Model.Origins Model.ValueTokens
+                       Proofs.BodyQueriesProofs Proofs.TokenPlaces Proofs.ValueTargetsProofs Proofs.ValueTokensProofs.
 
 (* every token carries the modifiers of all enclosing blocks, outermost first, then its own *)
 Theorem C13_tokens_inherit_enclosing_modifiers : forall b bs mods,
@@ -39,3 +41,24 @@ Theorem C13_tokens_pairwise_disjoint : forall b bs mods,
   ForallOrdPairs disjoint (places b) -> ForallOrdPairs disjoint (map st_rng (tokens_body bs mods b)).
 Proof. exact tokens_pairwise_disjoint. Qed.
 Print Assumptions C13_tokens_pairwise_disjoint.
+
+(* ---- tokens inside attribute values (Model/ValueTokens.v) ---- *)
+
+(* Every token produced for a value lies inside that value's range: for every constraint (any nesting of
+   lists, maps, objects, tuples, one-of, literal types and values, type declarations), every expression
+   shape (operators, templates, conditionals, for expressions, index keys, function calls) and any depth.
+   [wf_s]: the parser's tree nests (parts inside wholes). *)
+Theorem C13_value_tokens_inside_the_value : forall funcs vals fuel c e,
+  wf_s e -> toks_inside (se_rng e) (value_tokens funcs vals fuel c e).
+Proof. exact value_tokens_inside. Qed.
+Print Assumptions C13_value_tokens_inside_the_value.
+
+(* ... hence every value token of a file lies inside the value of one of its attributes: value tokens
+   never reach into names, labels or other attributes *)
+Theorem C13_file_value_tokens_inside_values : forall funcs vals exprs,
+  (forall r e, lookup_sexpr exprs r = Some e -> wf_s e) ->
+  forall fuel bs b ts,
+  body_value_tokens funcs vals exprs fuel bs b = Some (Some ts) ->
+  Forall (fun t => exists r e, lookup_sexpr exprs r = Some e /\ inside (vk_rng t) (se_rng e)) ts.
+Proof. exact file_value_tokens_inside_values. Qed.
+Print Assumptions C13_file_value_tokens_inside_values.
